@@ -67,7 +67,8 @@ class C02Facade(Harness):
         if cx.sym:
             for k in range(D):
                 L, R = [cx.t(i) for i in x["l"][k]], [cx.t(i) for i in x["r"][k]]
-                cx.assume(rising_pairs(L, R), tolerance_band(L, R))
+                # any positive gap counts (cell membership is exact; no tolerance is involved in the ND path)
+                cx.assume(rising_pairs(L, R))
                 if p["gap"] == k:
                     cx.assume(z3.Not(consecutive(L, R)))
                 else:
